@@ -72,6 +72,7 @@ def main():
                 print(sid, c, 'exit', rc, 'violations', len(viol), what[:2], flush=True)
         finally:
             sh('git -C /repo worktree remove --force %s' % run)
+            shutil.rmtree(os.path.join(dst, 'evidence'), ignore_errors=True)
     meta['alarm'] = any(v['exit'] != 0 or v['violations'] > 0 for v in meta['checks'].values())
     with open(os.path.join(dst, 'meta.json'), 'w') as f:
         json.dump(meta, f, indent=1)
